@@ -437,6 +437,16 @@ EGLPNUM_TYPENAME_QSLIB_INTERFACE int EGLPNUM_TYPENAME_QSopt_pivotin_row (
 		ILL_ERROR (rval, "pricing info not available in EGLPNUM_TYPENAME_QSopt_pivotin_row\n");
 	}
 
+	{
+		int k;
+		for (k = 0; k < rcnt; k++)
+			if (rlist[k] < 0 || rlist[k] >= p->qslp->nrows)
+			{
+				QSlog("EGLPNUM_TYPENAME_QSopt_pivotin_row called with bad row index %d", rlist[k]);
+				rval = 1;
+				goto CLEANUP;
+			}
+	}
 	rval = EGLPNUM_TYPENAME_ILLsimplex_pivotin (p->lp, p->pricing, rcnt, rlist,
 														 SIMPLEX_PIVOTINROW, &basismod);
 	CHECKRVALG (rval, CLEANUP);
@@ -465,6 +475,16 @@ EGLPNUM_TYPENAME_QSLIB_INTERFACE int EGLPNUM_TYPENAME_QSopt_pivotin_col (
 		ILL_ERROR (rval, "pricing info not available in QSopt_pivotin\n");
 	}
 
+	{
+		int k;
+		for (k = 0; k < ccnt; k++)
+			if (clist[k] < 0 || clist[k] >= p->qslp->ncols)
+			{
+				QSlog("EGLPNUM_TYPENAME_QSopt_pivotin_col called with bad column index %d", clist[k]);
+				rval = 1;
+				goto CLEANUP;
+			}
+	}
 	rval = EGLPNUM_TYPENAME_ILLsimplex_pivotin (p->lp, p->pricing, ccnt, clist,
 														 SIMPLEX_PIVOTINCOL, &basismod);
 	CHECKRVALG (rval, CLEANUP);
